@@ -12,6 +12,13 @@
 #include "common.h"
 
 
+#ifdef TUKAANI_PROJECT_XZ_VERIF
+#include "verif_hooks.h"
+// NULL unless a test driver installs an event sink.
+lzma_verif_ev_fn lzma_verif_ev = NULL;
+#endif
+
+
 /////////////
 // Version //
 /////////////
